@@ -132,7 +132,8 @@ def run_check(prop, tier):
     for o in ctx.obs:
         if o["verdict"] != "violated":
             continue
-        k = (prop, o["rule"], o["key"])
+        base = o["key"][len("all-features: "):] if o["key"].startswith("all-features: ") else o["key"]  # the same finding seen in the second configuration
+        k = (prop, o["rule"], base)
         if k in kf:
             reported_known.append(o)
             print("KNOWN-FINDING: property=%s %s %s -- %s" % (prop, o["rule"], o["key"], kf[k].get("what", o["detail"])))
